@@ -1,7 +1,7 @@
 (* C10 - Patch composition follows the documented per-action semantics. *)
 From Coq Require Import String List Bool.
 From Sidetree Require Import Json.Json Sidetree.JsonPatch Sidetree.Composer Sidetree.Validator Sidetree.Frame
-     Sidetree.ComposerProps Sidetree.Rfc6902 Sidetree.Conformance Sidetree.ConformanceArr Sidetree.ValidatorJequiv Sidetree.ComposerOrder.
+     Sidetree.ComposerProps Sidetree.Rfc6902 Sidetree.Conformance Sidetree.ConformanceArr Sidetree.ValidatorJequiv Sidetree.ComposerOrder Sidetree.JsonPatchOrder Sidetree.ComposerOrderAll.
 Import ListNotations.
 Open Scope string_scope.
 
@@ -127,11 +127,11 @@ Example C10_nonvacuous :
   = Some [("publicKey", JArr [JObj [("id", JStr "k1"); ("v", JNum "2")]; JObj [("id", JStr "k3")]])].
 Proof. vm_compute. reflexivity. Qed.
 
-(* the dedicated actions do not see member order: documents and patch lists equal up to the order
+(* the order_blind actions do not see member order: documents and patch lists equal up to the order
    of object members at any depth (and without a member named twice) compose to documents equal
    up to member order, or both fail.  (ietf-json-patch is outside this theorem.) *)
 Theorem C10_dedicated_actions_member_order : forall ps ps' doc doc',
-  objrel doc doc' -> Forall2 vrel ps ps' -> Forall dedicated ps ->
+  objrel doc doc' -> Forall2 vrel ps ps' -> Forall order_blind ps ->
   opt_objrel (apply_patches doc ps) (apply_patches doc' ps').
-Proof. exact apply_patches_member_order. Qed.
+Proof. exact apply_patches_member_order_all. Qed.
 Print Assumptions C10_dedicated_actions_member_order.
